@@ -76,7 +76,12 @@ Msg(e) == CASE e = "AccessViolation"    -> <<10,45,45,45,32,65,99,99,101,115,115
 TrapModeBad(a, b) ==
   IF ~(a.ev = "End" /\ b.ev = "End") THEN {"shape"}
   ELSE LET fa == a.final  fb == b.final IN
-       IF fa.lastres = "ok" /\ fa.hit_halt = 1
+       \* "For user-mode programs": the instruction that ends the run under virtual traps (the HALT, which
+       \* leaves the PSR alone there, or the faulting instruction) executes in user mode.  With privilege
+       \* checks off a program can RTI itself into supervisor mode on its own stack; what the OS then
+       \* pushes on that stack is not constrained by this property.
+       IF fa.psr < 32768 THEN {}
+       ELSE IF fa.lastres = "ok" /\ fa.hit_halt = 1
        THEN \* the program halts under virtual traps
             (IF fb.disp = fa.disp THEN {} ELSE {"real-traps-output-differs"})
             \cup (IF \A i \in 1..6 : fb.regs[i] = fa.regs[i] THEN {} ELSE {"real-traps-registers-differ"})
